@@ -15,8 +15,9 @@ LEVEL = "exploration"
 DESIGN_REF = "DESIGN.md §3.2, §4 C05"
 RULE = (
     "cases = C04's program family with removal-heavy call lists (unschedule / remove_handler_for_watch / unschedule_all "
-    "from API threads and re-entrantly from handlers, stop() at the end) x schedules (DFS with <= k preemptions over 6 "
-    "fixed programs, random schedules over Hypothesis programs); a marker event queued through every live emitter at "
+    "from API threads and re-entrantly from handlers, stop() at the end) x schedules (DFS with <= k preemptions over 8 "
+    "fixed programs, random schedules over Hypothesis programs), one program in three with an emitter that spends longer "
+    "than its timeout inside one queue_events() pass; a marker event queued through every live emitter at "
     "quiescence is judged like any other event.  non-trivial = some removal returned while >= 1 event of "
     "the affected watch was still queued or yet to be queued by its emitter; distinct = digest of (program, schedule)"
 )
@@ -83,7 +84,16 @@ FIXED = [
     P(["/p0"], {"/p0": [0, 1, 2]}, [{"reentrant": {"at": 2, "call": ["remove", 1, 0]}}, {}], [["schedule", 0, 0], ["schedule", 1, 0]], [[["remove", 0, 0], ["add", 0, 0]]]),
     P(["/p0", "/p1"], {"/p0": [0, 1], "/p1": [0, 1]}, [{"reentrant": {"at": 1, "call": ["unschedule_all"]}}, {}], [["schedule", 0, 0], ["schedule", 1, 1]], [[["schedule", 1, 0]]]),
 ]
-PROGRAMS = obsprog.programs(removal_heavy=True)
+def PS(prog, slow):
+    return dict(prog, slow=slow)
+
+
+FIXED += [
+    # the removal arrives while the emitter is inside one long queue_events() pass (longer than its timeout)
+    PS(P(["/p0"], {"/p0": [0, 1]}, [{}], [["schedule", 0, 0]], [[["unschedule_all"]]]), {"/p0": {"1": 2.5}}),
+    PS(P(["/p0", "/p1"], {"/p0": [0, 1], "/p1": [0]}, [{}], [["schedule", 0, 0], ["schedule", 0, 1]], [[["unschedule", 0]]]), {"/p0": {"0": 2.5}}),
+]
+PROGRAMS = obsprog.programs(removal_heavy=True, slow_passes=True)
 MAXRUNS = c04.MAXRUNS
 NSH = c04.NSH
 shards = c04.shards
